@@ -129,7 +129,25 @@ def r4_push(ctx, facts):
                 sa = prov.strip(a)
                 if sa[0] == 'call' and sa[1].get('name') in ('new_value', 'new_zero'):
                     continue        # compact body: the entry constructor is judged instead
-                stores.append((bi, t, a, 'raw'))
+                # a value chosen earlier (`let stored = if test { value } else { 0.0 }`): judge each alternative where it is chosen
+                op = t['args'][1]
+                alts = []
+                if a[0] == 'phi' and op.get('k') in ('copy', 'move') and 'proj' not in op['p']:
+                    defs = P.reaching(op['p']['l'], bi, len(f.blocks[bi]['s']))
+                    for _ in range(3):
+                        if len(defs) == 1 and defs[0].kind == 'assign' and defs[0].data['rv']['k'] == 'use' and \
+                                defs[0].data['rv']['op'].get('k') in ('copy', 'move') and 'proj' not in defs[0].data['rv']['op']['p']:
+                            d0 = defs[0]
+                            defs = P.reaching(d0.data['rv']['op']['p']['l'], d0.bb, d0.idx)
+                        else:
+                            break
+                    if len(defs) >= 2:
+                        alts = [(d.bb, P.def_value(d)) for d in defs]
+                if alts:
+                    for dbb, dv in alts:
+                        stores.append((dbb, t, dv, 'raw'))
+                else:
+                    stores.append((bi, t, a, 'raw'))
         bad = []
         nval = 0
         for bi, t, a, kind in stores:
